@@ -249,8 +249,8 @@ func streamConc(cfg *Config, res *Result) error {
 		}
 		og := &OpGen{Mutating: allMutators, ReadOnly: false, Orig: map[string]Entry{}}
 		pick := func() Step {
-			switch r.Intn(6) {
-			case 0:
+			switch r.Intn(8) {
+			case 0, 6, 7:
 				return others[r.Intn(len(others))]
 			case 1:
 				return Step{Do: "force", Arg: []string{pickPath(r, paths)}}
